@@ -33,7 +33,8 @@ MANIFEST = {
             "(coordPos_mls_eq_locate_partial) with the K9 witness proved (coordPos_mls_ne_locate_witness). Masks on the specification: for every geometry A, "
             "is_contains(relateSpec(A, Point c)) = (locate A c = Inside) and is_intersects(...) = (locate A c != Outside); hence the hand-written "
             "Contains<Point> bodies of Point, MultiPoint, Line, Rect (non-degenerate), Triangle, Polygon (same hypotheses) and the Intersects<Point> paths of "
-            "Point, MultiPoint, Line, LineString, Rect, Polygon equal the mask on the specification. Dispatch: has_disjoint_bboxes is sound for the segment "
+            "Point, MultiPoint, Line, LineString, Rect, Triangle (non-degenerate; witness for the collinear case), Polygon equal the mask on the specification; "
+            "Point.is_within(A) equals its own mask T*F**F*** on the specification whenever A.contains(Point) does. Dispatch: has_disjoint_bboxes is sound for the segment "
             "kernel (LineString x LineString, LineString x Line), MultiPoint / LineString / MultiPolygon / GeometryCollection clauses are (bbox test and) any "
             "over members, intersects is symmetric on every primitive pair except Triangle x Triangle and Polygon x Polygon, and for MultiPoint x primitive. "
             "Each generated case is compared three ways (implementation = model, implementation = specification).",
